@@ -113,10 +113,10 @@ Lemma code_ok_wf c : code_ok c = true -> wf_bytes c = true.
 Proof. unfold code_ok. intro H. apply andb_prop in H. apply H. Qed.
 
 (** every service call keeps the store well formed and touches only the transaction cache *)
-Lemma exec_good track h s o s' : good s -> cop_wf o = true -> exec true track h s o = Ok s' ->
+Lemma exec_good_any strict track h s o s' : good s -> cop_wf o = true -> exec strict track h s o = Ok s' ->
   good s' /\ same_block s s'.
 Proof.
-  intros G W E. destruct o as [a code|cur new code|cur|cur k v|cur k|a|a|a]; cbn [exec cop_wf negb orb] in *.
+  intros G W E. destruct o as [a code|cur new code|cur|cur k v|cur k|a|a|a]; cbn [exec cop_wf] in *.
   - apply andb_prop in W. destruct W as [Wa Wc].
     destruct (get_contract s a) as [[c|] [|]]; inversion E; subst; try (split; [exact G|apply same_block_refl]).
     split; [apply good_put; [exact G|reflexivity|apply is_addr_wf; exact Wa]|apply same_block_put].
@@ -128,16 +128,20 @@ Proof.
   - destruct (context_ok s cur); [|discriminate]. apply of_loop_ok in E. destruct E as [_ <-].
     destruct (clean_full_spec track h cur s G W) as (_ & R2 & R3 & _). split; assumption.
   - apply andb_prop in W. destruct W as [W Wv]. apply andb_prop in W. destruct W as [Wcur Wk].
-    destruct (context_ok s cur); [|discriminate]. destruct (C44_MAX_STORAGE_KEY <? _); [discriminate|].
+    destruct (negb strict || context_ok s cur); [|discriminate]. destruct (C44_MAX_STORAGE_KEY <? _); [discriminate|].
     inversion E; subst. split; [|apply same_block_put].
     apply good_put; [exact G|reflexivity|]. rewrite wf_bytes_app, (is_addr_wf _ Wcur), Wk. reflexivity.
   - apply andb_prop in W. destruct W as [Wcur Wk].
-    destruct (context_ok s cur); [|discriminate]. inversion E; subst. split; [|apply same_block_delete].
+    destruct (negb strict || context_ok s cur); [|discriminate]. inversion E; subst. split; [|apply same_block_delete].
     apply good_delete; [exact G|reflexivity|]. rewrite wf_bytes_app, (is_addr_wf _ Wcur), Wk. reflexivity.
   - inversion E; subst. split; [apply set_destroyed_good; [exact G|apply is_addr_wf; exact W]|apply set_destroyed_block].
   - inversion E; subst. split; [apply unset_destroyed_good; [exact G|apply is_addr_wf; exact W]|apply unset_destroyed_block].
   - destruct (context_ok s a); inversion E; subst. split; [exact G|apply same_block_refl].
 Qed.
+
+Lemma exec_good track h s o s' : good s -> cop_wf o = true -> exec true track h s o = Ok s' ->
+  good s' /\ same_block s s'.
+Proof. apply exec_good_any. Qed.
 
 (** * prefix separation for addresses *)
 Lemma other_prefix a b x : length a = length b -> a <> b -> has_prefix (SP a) x = true -> has_prefix (SP b) x = false.
@@ -340,6 +344,92 @@ Proof.
     rewrite CK_not_DK, andb_false_r in H. rewrite (under_not_DK x b Hx), andb_false_r. apply O; assumption.
   - (* APPCALL *)
     destruct (context_ok s b); inversion E; subst. exact O.
+Qed.
+
+(** [a] is marked destroyed and has no record: preserved by the code AS IT IS (any [strict]) *)
+Definition markf (f : bytes -> option bytes) : Prop := f (DK a) <> None /\ f (CK a) = None.
+
+Lemma markf_ext f g : (forall x, f x = g x) -> markf f -> markf g.
+Proof. intros E [D1 D2]. split; rewrite <- E; assumption. Qed.
+
+Lemma mark_isS s : markf (glk s) -> isS (glk s (DK a)) = true.
+Proof. intros [D _]. destruct (glk s (DK a)); [reflexivity|congruence]. Qed.
+
+Lemma mark_get_contract s : sorted_state s -> markf (glk s) -> get_contract s a = (None, true).
+Proof. intros Hs D. rewrite get_contract_glk by exact Hs. rewrite (mark_isS s D). reflexivity. Qed.
+
+Lemma mark_not_undeployed s : sorted_state s -> markf (glk s) -> undeployed s a = false.
+Proof. intros Hs D. rewrite undeployed_glk by exact Hs. rewrite (mark_isS s D). reflexivity. Qed.
+
+Lemma mark_not_context s : sorted_state s -> markf (glk s) -> context_ok s a = false.
+Proof. intros Hs D. rewrite context_ok_glk by exact Hs. rewrite (mark_isS s D). reflexivity. Qed.
+
+Lemma exec_mark_refuses strict track h s o : good s -> markf (glk s) -> cop_claims a o = true ->
+  exec strict track h s o = Err Refused.
+Proof.
+  intros G D T. pose proof (good_sorted s G) as Hs.
+  destruct o as [b code|cur new code|cur|cur k v|cur k|b|b|b]; cbn [cop_claims] in T; try discriminate;
+    apply bytes_eqb_eq in T; subst; cbn [exec].
+  - rewrite (mark_not_undeployed s Hs D). reflexivity.
+  - rewrite (mark_not_context s Hs D). reflexivity.
+  - rewrite (mark_not_context s Hs D). reflexivity.
+Qed.
+
+Lemma exec_mark strict track h s o s' : good s -> cop_wf o = true -> cop_unsets a o = false ->
+  markf (glk s) -> exec strict track h s o = Ok s' -> markf (glk s').
+Proof.
+  intros G W U D E. pose proof (good_sorted s G) as Hs. pose proof D as [D1 D2].
+  destruct o as [b code|cur new code|cur|cur k v|cur k|b|b|b]; cbn [exec cop_wf cop_unsets] in *.
+  - (* Create *)
+    apply andb_prop in W. destruct W as [Wb Wc].
+    destruct (get_contract s b) as [[c|] [|]] eqn:GC; inversion E; subst; try exact D.
+    assert (Nb : b <> a) by (intros ->; rewrite (mark_get_contract s Hs D) in GC; discriminate).
+    split; rewrite glk_put_contract by assumption.
+    + rewrite DK_not_CK. exact D1.
+    + destruct (key_eqb (CK a) (CK b)) eqn:K; [apply CK_eqb in K; congruence|exact D2].
+  - (* Migrate *)
+    apply andb_prop in W. destruct W as [W Wc]. apply andb_prop in W. destruct W as [Wcur Wnew].
+    destruct (undeployed s new) eqn:Un; [|discriminate]. apply of_loop_ok in E. destruct E as [_ <-].
+    assert (Nn : a <> new) by (intros <-; rewrite (mark_not_undeployed s Hs D) in Un; discriminate).
+    set (s1 := put_contract new code s).
+    assert (G1 : good s1) by (apply good_put; [exact G|reflexivity|apply is_addr_wf; exact Wnew]).
+    assert (E1 : forall x, glk s1 x = if key_eqb x (CK new) then Some code else glk s x)
+      by (intro x; apply glk_put_contract; assumption).
+    destruct (migrate_full_spec track h cur new s1 G1 Wcur Wnew) as (_ & _ & _ & _ & _ & R6).
+    split.
+    + rewrite R6 by apply DK_not_SP. rewrite DK_not_CK.
+      destruct ((track <=? h) && key_eqb (DK a) (DK cur)); [discriminate|].
+      rewrite E1, DK_not_CK. exact D1.
+    + rewrite R6 by apply CK_not_SP. rewrite CK_not_DK, andb_false_r.
+      destruct (key_eqb (CK a) (CK cur)); [reflexivity|]. rewrite E1.
+      destruct (key_eqb (CK a) (CK new)) eqn:K; [apply CK_eqb in K; congruence|exact D2].
+  - (* Destroy *)
+    destruct (context_ok s cur) eqn:C; [|discriminate]. apply of_loop_ok in E. destruct E as [_ <-].
+    destruct (clean_full_spec track h cur s G W) as (_ & _ & _ & R). split.
+    + rewrite R, DK_not_SP, DK_not_CK. destruct ((track <=? h) && key_eqb (DK a) (DK cur)); [discriminate|exact D1].
+    + rewrite R, CK_not_SP, CK_not_DK, andb_false_r. destruct (key_eqb (CK a) (CK cur)); [reflexivity|exact D2].
+  - (* Put: whatever the context *)
+    destruct (negb strict || context_ok s cur); [|discriminate]. destruct (C44_MAX_STORAGE_KEY <? _); [discriminate|].
+    inversion E; subst. clear E. change (pkey ST_STORAGE (cur ++ k)) with (SK cur k) in *.
+    split; rewrite glk_put by exact Hs; change (pkey ST_STORAGE (cur ++ k)) with (SK cur k).
+    + rewrite key_eqb_sym, (SK_not_DK _ cur a k eq_refl). exact D1.
+    + rewrite key_eqb_sym, (SK_not_CK _ cur a k eq_refl). exact D2.
+  - (* Delete *)
+    destruct (negb strict || context_ok s cur); [|discriminate]. inversion E; subst. clear E.
+    split; rewrite glk_delete by exact Hs; change (pkey ST_STORAGE (cur ++ k)) with (SK cur k).
+    + rewrite key_eqb_sym, (SK_not_DK _ cur a k eq_refl). exact D1.
+    + rewrite key_eqb_sym, (SK_not_CK _ cur a k eq_refl). exact D2.
+  - (* AddDestroyed *)
+    inversion E; subst. split; rewrite glk_set_destroyed by exact Hs.
+    + destruct ((track <=? h) && _); [discriminate|exact D1].
+    + rewrite CK_not_DK, andb_false_r. exact D2.
+  - (* RemoveDestroyed, of another address *)
+    inversion E; subst. assert (Nb : b <> a) by (intros ->; rewrite (proj2 (bytes_eqb_eq a a) eq_refl) in U; discriminate).
+    split; rewrite glk_unset_destroyed by exact Hs.
+    + destruct (key_eqb (DK a) (DK b)) eqn:K; [apply DK_eqb in K; congruence|]. rewrite andb_false_r. exact D1.
+    + rewrite CK_not_DK, andb_false_r. exact D2.
+  - (* APPCALL *)
+    destruct (context_ok s b); inversion E; subst. exact D.
 Qed.
 
 End PerAddress.
